@@ -385,8 +385,8 @@ def iadd(a, b):
 def isub(a, b):
     if not _isinstance(a, (SInt, SBool)) and not _isinstance(b, (SInt, SBool)):
         return int(a) - int(b)
-    a, b = lift(a), lift(b)
-    return _bin(a, b, lambda x, y: x - y, a.lo - b.hi, a.hi - b.lo)
+    # canonical form a + (~b + 1): the same term whether the code subtracts or adds a negation (int64 - uint64 goes through float64)
+    return iadd(a, ineg(b))
 
 
 def ineg(a):
